@@ -1,4 +1,4 @@
-use crate::{InputTrait, Parser, default_parse_error};
+use crate::{InputTrait, Parser, ParserErrorTrait, default_parse_error};
 
 pub struct FilterMapParser<P, F> {
     parser: P,
@@ -20,15 +20,21 @@ where
     type Error = P::Error;
     fn parse(&mut self, tokenizer: &mut I) -> Result<Self::Output, Self::Error> {
         let original_input = tokenizer.get_position();
-        self.parser
-            .parse(tokenizer)
-            .and_then(|result| match (self.predicate)(&result) {
+        match self.parser.parse(tokenizer) {
+            Ok(result) => match (self.predicate)(&result) {
                 Some(value) => Ok(value),
                 None => {
                     tokenizer.set_position(original_input);
                     default_parse_error()
                 }
-            })
+            },
+            Err(err) => {
+                if err.is_soft() {
+                    tokenizer.set_position(original_input);
+                }
+                Err(err)
+            }
+        }
     }
 
     fn set_context(&mut self, ctx: &C) {
